@@ -34,11 +34,33 @@ pub fn install_panic_hook() {
     });
 }
 
-/// Runs `f`; a panic is returned as Err("message @ file:line").
+/// Set by the child-process driver (native runs only): calls into the subject are watched by
+/// the hang watchdog, like polls of the deterministic executor.
+pub static WATCH_CALLS: std::sync::atomic::AtomicBool = std::sync::atomic::AtomicBool::new(false);
+
+/// Runs `f`; a panic is returned as Err("message @ file:line"). A call that never returns is
+/// noticed by the watchdog thread of the child process (heartbeat + "inside a call" flag).
 pub fn guarded<T>(f: impl FnOnce() -> T) -> Result<T, String> {
+    use std::sync::atomic::Ordering;
     install_panic_hook();
     LAST_PANIC.with(|p| *p.borrow_mut() = None);
-    match panic::catch_unwind(AssertUnwindSafe(f)) {
+    let watch = WATCH_CALLS.load(Ordering::Relaxed);
+    let mut prev = false;
+    if watch {
+        crate::bus::dx::HEARTBEAT.fetch_add(1, Ordering::Relaxed);
+        prev = crate::bus::dx::IN_POLL.swap(true, Ordering::SeqCst);
+        if !prev {
+            if let Ok(mut g) = crate::bus::dx::CURRENT_TASK.lock() {
+                *g = "call-into-the-subject".to_string();
+            }
+        }
+    }
+    let r = panic::catch_unwind(AssertUnwindSafe(f));
+    if watch {
+        crate::bus::dx::HEARTBEAT.fetch_add(1, Ordering::Relaxed);
+        crate::bus::dx::IN_POLL.store(prev, Ordering::SeqCst);
+    }
+    match r {
         Ok(v) => Ok(v),
         Err(_) => Err(LAST_PANIC
             .with(|p| p.borrow_mut().take())
